@@ -57,6 +57,7 @@ def make_params(ex: Exec, c: Contract, node) -> dict:
         for s in _seqs_in(v):
             ex.assume(s.length >= 0)
         out[nm] = ex.force(v)
+        ex.assume_allocated(out[nm])
     return out
 
 
@@ -93,6 +94,7 @@ def run_function(world: World, c: Contract) -> tuple[Exec, FnResult]:
     res.sha = mod.sha
     node = mod.find(c.qual)
     ex = Exec(world)
+    ex.track_alloc = bool(getattr(c, "track_alloc", False))
     is_gen = world.is_contextmanager(node)
 
     def runner():
@@ -112,6 +114,8 @@ def run_function(world: World, c: Contract) -> tuple[Exec, FnResult]:
         if c.kind == "setup":
             pass
         old_heap = ex.snapshot_heap()
+        if ex.track_alloc:
+            ex.now()
         old_ghost = dict(ex.ghost)
         extra = {}
         if is_gen and c.kind == "contextmanager":
@@ -191,7 +195,10 @@ def _check_cvc5(solver: z3.Solver, timeout_s: int):
     except Exception:
         return "unknown"
     finally:
-        os.unlink(path)
+        if os.environ.get("PYVC_KEEP_SMT"):
+            print("kept", path)
+        else:
+            os.unlink(path)
 
 
 def concretize(v, model):
@@ -273,6 +280,56 @@ def ground_pow2_facts(world, upto=130):
     return [p(k) == 2 ** k for k in range(upto + 1)]
 
 
+def _instances(f, bound):
+    """ground instances k = 0..bound-1 of a universally quantified hypothesis over one integer, plus
+    `upper <= bound` for the guard `k < upper`.  Instances are implied by the hypothesis, so the result
+    over-approximates: a model of it is only a *candidate* counterexample (to be replayed)."""
+    if not (z3.is_quantifier(f) and f.is_forall() and f.num_vars() == 1 and f.var_sort(0) == z3.IntSort()):
+        return None
+    body = f.body()
+    out = [z3.substitute_vars(body, z3.IntVal(j)) for j in range(bound)]
+    k = z3.Var(0, z3.IntSort())
+    stack, seen = [body], 0
+    while stack and seen < 200:
+        g = stack.pop()
+        seen += 1
+        if z3.is_app(g):
+            if g.decl().kind() == z3.Z3_OP_LE and g.arg(1).eq(k) and not _mentions_var(g.arg(0)):   # upper <= k  (negated guard k < upper)
+                out.append(g.arg(0) <= bound)
+            elif g.decl().kind() == z3.Z3_OP_LT and g.arg(0).eq(k) and not _mentions_var(g.arg(1)):
+                out.append(g.arg(1) <= bound)
+            stack.extend(g.children())
+    return out
+
+
+def _mentions_var(t):
+    stack = [t]
+    while stack:
+        g = stack.pop()
+        if z3.is_var(g):
+            return True
+        if z3.is_app(g):
+            stack.extend(g.children())
+        elif z3.is_quantifier(g):
+            return True
+    return False
+
+
+def bounded_candidate(ground, pc, formula, bound=3, timeout_ms=8000):
+    hyps = []
+    for p in pc:
+        conj = p.children() if z3.is_and(p) else [p]
+        for q in conj:
+            if not has_quantifier(q):
+                hyps.append(q)
+                continue
+            inst = _instances(q, bound)
+            if inst is not None:
+                hyps.extend(i for i in inst if not has_quantifier(i))
+    r, s = _check_z3(ground, hyps, formula, timeout_ms)
+    return (s.model() if r == z3.sat else None)
+
+
 def discharge(world: World, ex: Exec, res: FnResult, use_cvc5=True, params_by_path=None):
     """Group obligation instances by id; an id is discharged iff every path
     instance is unsat.  sat/unknown instances go through a model-finding
@@ -327,6 +384,13 @@ def discharge(world: World, ex: Exec, res: FnResult, use_cvc5=True, params_by_pa
                 model_info = {"model": m, "obl": o, "candidate_only": r3 != z3.sat}
                 backend = "cvc5" if (r2 == "sat" and m is None) else "z3"
                 note = o.note
+                break
+            # 5. candidate search on a bounded weakening of the hypotheses (never a proof, never a verdict by itself)
+            cm = bounded_candidate(ground, o.pc, o.formula)
+            if cm is not None:
+                status, backend = "refuted", "z3-bounded-candidate"
+                model_info = {"model": cm, "obl": o, "candidate_only": True, "weakened": True}
+                note = "candidate counter-model of a bounded weakening of the hypotheses; " + o.note
                 break
             status = "unknown"
             note = f"z3: {s.reason_unknown()}; cvc5: {r2}; {o.note}"
